@@ -28,7 +28,7 @@ RAISABLE = ['ValueError', 'KeyError', 'LookupError', 'Exception', 'KeyboardInter
 
 def key(k):
     """dict key / attribute name tree -> Python object: n = the one-letter str chr(97+n); ['ki', n] int; ['kb', c...] bytes;
-    'kn' None; ['kt', n...] tuple of ints"""
+    'kn' None; ['kt', f...] tuple whose fields are ints n or one-letter strs ['ks', c]"""
     if isinstance(k, int):
         return chr(97 + k)
     if k == 'kn':
@@ -38,7 +38,7 @@ def key(k):
     if k[0] == 'kb':
         return bytes(k[1:])
     if k[0] == 'kt':
-        return tuple(k[1:])
+        return tuple(f if isinstance(f, int) else chr(97 + f[1]) for f in k[1:])
     raise ValueError('bad key tree %r' % (k,))
 
 
@@ -51,8 +51,9 @@ def keytree(pk):
         return ['ki', pk]
     if isinstance(pk, bytes):
         return ['kb'] + list(pk)
-    if isinstance(pk, tuple) and all(isinstance(x, int) for x in pk):
-        return ['kt'] + list(pk)
+    if isinstance(pk, tuple) and all((isinstance(x, int) and x is not True and x is not False) or
+                                     (isinstance(x, str) and len(x) == 1 and ord(x) >= 97) for x in pk):
+        return ['kt'] + [x if isinstance(x, int) else ['ks', ord(x) - 97] for x in pk]
     return -1
 
 
@@ -62,7 +63,9 @@ def key_order(k):
         return (0,)
     if isinstance(k, int):
         return (2, k)
-    return {'ki': (1, k[1]) if k[0] == 'ki' else None, 'kb': (3, k[1:]), 'kt': (4, k[1:])}[k[0]]
+    if k[0] == 'kt':      # fields: ints before strs
+        return (4, [(0, f) if isinstance(f, int) else (1, f[1]) for f in k[1:]])
+    return {'ki': (1, k[1]) if k[0] == 'ki' else None, 'kb': (3, k[1:])}[k[0]]
 
 
 def key_value(k):
@@ -75,14 +78,15 @@ def key_value(k):
         return ['i', k[1]]
     if k[0] == 'kb':
         return ['b'] + k[1:]
-    return ['t'] + [['i', n] for n in k[1:]]
+    return ['t'] + [['i', f] if isinstance(f, int) else ['s', 97 + f[1]] for f in k[1:]]
 
 
 def ktok(k):
-    return tuple(k) if isinstance(k, list) else k
+    return tuple(ktok(x) for x in k) if isinstance(k, list) else k
 
 
-KEY_POOL = [0, 1, 2, 3, ['ki', 1], ['ki', 2], ['ki', -1], 'kn', ['kb', 97], ['kb'], ['kt', 1, 2], ['kt']]
+KEY_POOL = [0, 1, 2, 3, ['ki', 1], ['ki', 2], ['ki', -1], 'kn', ['kb', 97], ['kb'], ['kt', 1, 2], ['kt'],
+            ['kt', 1, ['ks', 0]], ['kt', ['ks', 0], 1], ['kt', ['ks', 1]]]      # (1, 'a') and ('a', 1): same type, no order
 
 
 class ObjBase:
@@ -432,7 +436,8 @@ class C06(Prop):
             'matcher has a Boolean verdict; distinct = distinct input S-expression')
     assumptions = [
         'Python semantics of ==, <, in, len, iter, startswith, isinstance, getattr on the value universe are modelled (TTV/Model/Matchers.lean), not verified',
-        'dict keys are one-letter strs, ints, bytes, None and tuples of ints (mixed freely: such keys cannot be ordered with each other); dicts are built with the keys in a canonical order and objects/exceptions/callables are interned per case, so that == and `is` are structural equality in the model',
+        'no bool values (True == 1), no objects with a dishonest or non-Boolean ==: Equals/Contains/SameMembers simply inherit the behaviour of == / in / bool() of such objects (match() propagates the ValueError of an array-like comparison); 0-ary combinators, empty containers and 0 / None as expected values are in the universe',
+        'dict keys are one-letter strs, ints, bytes, None and tuples of ints / one-letter strs (mixed freely: keys of different types cannot be ordered with each other, nor can (1, \'a\') and (\'a\', 1)); dicts are built with the keys in a canonical order and objects/exceptions/callables are interned per case, so that == and `is` are structural equality in the model',
         'opaque leaves (MatchesRegex, DocTestMatches, filesystem matchers, Warnings/IsDeprecated/WarningMessage, MatchesPredicate[WithParams]) are tested against an independent oracle, not proved',
         'the scratch directory of the filesystem leaves holds a setuid file (4755), a setgid file (2644), a sticky directory (1777) besides plain modes; the permission oracle is stat.S_IMODE read back from the path',
         'the two builds of an expression differ in the iteration order of set(<matchers of a MatchesSetwise>), forced by re-allocating the matcher objects until list(set(..)) has the order given in the input (the verdict must not depend on it)',
@@ -819,6 +824,8 @@ class C06(Prop):
         f += greedy_report(m, v)
         if mixed_keys(v):
             f.append('dict-value:unorderable-keys')
+        if "'ks'" in repr(v) or "'ks'" in repr(m):
+            f.append('tuple-key-with-int-and-str-fields')
         if mixed_keys(m):
             f.append('dict-matcher/KeysEqual:unorderable-keys')
         if isinstance(v, list) and v[0] == 's' and len(v) > 20:
@@ -932,6 +939,16 @@ def key_type(k):
     return 'str' if isinstance(k, int) else 'none' if k == 'kn' else k[0]
 
 
+def unorderable_tuples(ks):
+    """two tuple keys whose first differing fields are an int and a str: sorted() raises although the types agree"""
+    ts = [key(k) for k in ks if isinstance(k, list) and k[0] == 'kt']
+    try:
+        sorted(ts)
+    except TypeError:
+        return True
+    return False
+
+
 def mixed_keys(t):
     """does some dict value / dict matcher / KeysEqual of the tree have keys of two or more types?"""
     if not isinstance(t, list) or not t:
@@ -943,7 +960,7 @@ def mixed_keys(t):
         ks = [e[0] for e in t[2:]]
     elif t[0] == 'keys':
         ks = t[1:]
-    if ks is not None and len({key_type(k) for k in ks}) >= 2:
+    if ks is not None and (len({key_type(k) for k in ks}) >= 2 or unorderable_tuples(ks)):
         return True
     return any(mixed_keys(x) for x in t[1:] if isinstance(x, list))
 
@@ -1275,7 +1292,7 @@ class Gen:
                 return ['contains', r.choice([['i', r.choice([97, 98, 0, 255, 256, -1])], ['b'] + v[1:][:r.randint(0, 2)]])]
             if es and r.random() < 0.7:
                 return ['contains', r.choice(es)]
-            return ['contains', r.choice([self.int_(), self.str_(), ['l'], None, ['t', ['i', 1], ['i', 2]], ['t'], ['b', 97], ['t', ['l']]])]
+            return ['contains', r.choice([self.int_(), self.str_(), ['l'], None, ['t', ['i', 1], ['i', 2]], ['t'], ['b', 97], ['t', ['l']], ['t', ['i', 1], ['s', 97]]])]
         if k == 'containsAll':
             es = self.elems(v) or []
             items = [r.choice(es) for _ in range(r.randint(0, 2))] if es else []
